@@ -24,6 +24,7 @@ fn map_views(c: &Con, f: &dyn Fn(&View) -> View) -> Con {
         Con::Cumulative { starts, durations, usages, capacity, options } => {
             Con::Cumulative { starts: vs(starts), durations: durations.clone(), usages: usages.clone(), capacity: *capacity, options: *options }
         }
+        Con::ViewClause(ps) => Con::ViewClause(ps.iter().map(|(v, k, val)| (f(v), *k, *val)).collect()),
         Con::Not(c) => Con::Not(Box::new(map_views(c, f))),
         Con::Half(c, l) => Con::Half(Box::new(map_views(c, f)), *l),
         Con::Reif(c, l) => Con::Reif(Box::new(map_views(c, f)), *l),
@@ -113,9 +114,10 @@ pub fn valid(case: &Case) -> bool {
             Con::BoolEq(w, b, _) => w.len() == b.len() && !b.is_empty() && b.iter().all(lit_ok),
             Con::LitClause(ls) | Con::LitConj(ls) => !ls.is_empty() && ls.iter().all(lit_ok),
             Con::PredClause(ps) => !ps.is_empty(),
+            Con::ViewClause(ps) => !ps.is_empty() && ps.iter().all(|(v, _, _)| v.scale != 0),
             Con::Cumulative { starts, durations, usages, .. } => !starts.is_empty() && starts.len() == durations.len() && starts.len() == usages.len(),
             Con::Not(c) => c.negatable() && con_ok(c, vars),
-            Con::Half(c, l) => lit_ok(l) && !matches!(**c, Con::Half(..) | Con::Reif(..) | Con::PredClause(..)) && con_ok(c, vars),
+            Con::Half(c, l) => lit_ok(l) && !matches!(**c, Con::Half(..) | Con::Reif(..) | Con::PredClause(..) | Con::ViewClause(..)) && con_ok(c, vars),
             Con::Reif(c, l) => lit_ok(l) && (c.negatable() || matches!(&**c, Con::Not(_))) && !matches!(**c, Con::Half(..) | Con::Reif(..)) && con_ok(c, vars),
             _ => true,
         }
@@ -228,6 +230,15 @@ fn simpler_cons(c: &Con) -> Vec<Con> {
                     let mut q = ps.clone();
                     q.remove(i);
                     out.push(Con::PredClause(q));
+                }
+            }
+        }
+        Con::ViewClause(ps) => {
+            for i in 0..ps.len() {
+                if ps.len() > 1 {
+                    let mut q = ps.clone();
+                    q.remove(i);
+                    out.push(Con::ViewClause(q));
                 }
             }
         }
